@@ -263,7 +263,8 @@ def run(prog, ctx):
             ctx.fail("W6", "the comment %s the entry is written" % where_, c.where,
                      "%s" % ("only the first physical line gets the comment prefix" if not inloop else "written on the wrong side of the key"), key="comment:%s" % fld)
     # ---- W7 coverage ------------------------------------------------------------------------------------------------------
-    fields = [x["name"] for x in prog.record("file_entry")["fields"] if x["name"] != "line_number"]
+    # textual = the strings, and the flag that decides about quotes; counters and caches derived from them are not written
+    fields = [x["name"] for x in prog.record("file_entry")["fields"] if x.get("ct") in ("char *", "const char *") or x["name"] == "quotes"]
     read = set(x.j["member"] for x in f.walk() if x.k == "MemberExpr" and x.j.get("rec") == "file_entry")
     missing = [x for x in fields if x not in read]
     if missing:
